@@ -852,6 +852,9 @@ where
                 async move {
                     let status = stats.executor_status().load(Relaxed);
                     l_close.lock().unwrap().close_calls.push((format!("{:?}", status), now_ms(t0)));
+                    // a close callback may await: the executor must still be found ended afterwards
+                    tokio::time::sleep(Duration::from_millis(3)).await;
+                    l_close.lock().unwrap().notes.push(format!("late_status={:?}", stats.executor_status().load(Relaxed)));
                 }
             };
             let l_err = Arc::clone(&ledgers2[li]);
@@ -1049,6 +1052,15 @@ where
             let ok = status == "StreamEnded" || (status == "ProgrammaticallyEnded" && was_cancelled);
             if !ok {
                 ctx::report("C12", "status_in_close_callback", key12("status_in_close_callback"), format!("listener {}: close callback found state {} (individually cancelled: {})", li, status, was_cancelled));
+            }
+        }
+        {
+            let was_cancelled = cancelled.as_ref().map(|c| c.0 == li).unwrap_or(false);
+            for n in l.notes.iter().filter(|n| n.starts_with("late_status=")) {
+                let status = &n["late_status=".len()..];
+                if !(status == "StreamEnded" || (status == "ProgrammaticallyEnded" && was_cancelled)) {
+                    ctx::report("C12", "status_left_the_ended_state", key12("status_left_the_ended_state"), format!("listener {}: 3 ms (virtual) into its close callback the executor is in state {} (individually cancelled: {})", li, status, was_cancelled));
+                }
             }
         }
         if l.close_invocations.len() != 1 {
